@@ -1,5 +1,6 @@
 import PqModel.IoFault
 import PqModel.IoFaultSrc
+import PqModel.IoFaultRead
 
 /-! # C14 — I/O failures and truncated files are always reported, never silently absorbed
 
@@ -305,5 +306,59 @@ theorem readAt_reports (want n : Nat) (err : Bool) (hconf : n < want → err = t
     (readAtWrap want n err).2 = false → n = want := readAtWrap_reports want n err hconf hle
 
 example : (readAtWrap 8 3 true).2 = true ∧ (readAtWrap 8 8 true).2 = false := by decide
+
+/-! ## Reader side: the readers built on top of a failing source -/
+section Readers
+open PqModel.IoFault.Rd
+
+/-- **merge2_eof_complete.** MIRROR `mergedRowReader2` over any two sources (SPEC `Src`: any rows,
+a fault after any number of rows, error alone or along with rows, io.EOF eager or not) and any
+sequence of buffer lengths of the consumer: if the session ends with io.EOF — no call reported an
+error — then the output holds, for each input, exactly the rows of that input in their order. -/
+theorem merge2_eof_complete (s0 s1 : Src) (caps : List Nat)
+    (h : (session false caps (M2.new s0 s1)).2.1 = .eof) :
+    proj false (session false caps (M2.new s0 s1)).1.flatten = s0.rows ∧
+    proj true (session false caps (M2.new s0 s1)).1.flatten = s1.rows := by
+  have := session_eof caps _ s0 s1 [] (Inv.new s0 s1) h
+  simpa using ⟨this.1, this.2.1⟩
+
+/-- **merge2_fault_reported.** A fault that bites (one of the sources fails before it has delivered
+all its rows) never ends in io.EOF: the session ends with an error, or is not finished yet. -/
+theorem merge2_fault_reported (s0 s1 : Src) (caps : List Nat) (hb : s0.Bites ∨ s1.Bites) :
+    (session false caps (M2.new s0 s1)).2.1 ≠ .eof := by
+  intro h
+  have := session_eof caps _ s0 s1 [] (Inv.new s0 s1) h
+  cases hb with
+  | inl hb => exact this.2.2.1 hb
+  | inr hb => exact this.2.2.2 hb
+
+/-- satisfiable, and why the `err != io.EOF` test of the second input matters: input 1 holds 25 rows
+and its source fails after 24 (the first fill of the 24-row buffer succeeds, the refill fails).
+The code reports the error in the second call; without the test (seeded change C14-4a) the session
+ends with io.EOF and row 24 of input 1 is missing. -/
+def srcOne : Src := ⟨[100], none, false, false⟩
+def srcFails : Src := ⟨(List.range 25).map Int.ofNat, some 24, false, false⟩
+
+example : srcFails.Bites := ⟨24, rfl, by decide⟩
+example : (session false [64, 64, 64] (M2.new srcOne srcFails)).2.1 = .err := by decide
+example : (session true [64, 64, 64] (M2.new srcOne srcFails)).2.1 = .eof ∧
+    (proj true (session true [64, 64, 64] (M2.new srcOne srcFails)).1.flatten).length = 24 := by decide
+example : (session false [7, 64, 64, 64] (M2.new srcOne ⟨[1, 2, 100, 101], none, true, false⟩)).2.1 = .eof := by decide
+
+/-- **bloom_probe_nil_exact.** MIRROR `bloom.CheckSplitBlock`: over a conforming `io.ReaderAt`
+(fewer bytes than asked for come with an error) a nil error means the probe was evaluated on the
+block of the filter, whatever the pooled buffer held before. -/
+theorem bloom_probe_nil_exact (chk : List UInt8 → Bool) (stale blk : List UInt8) (n : Nat) (r : Res)
+    (hs : stale.length = blk.length) (hconf : n < blk.length → r ≠ .nil)
+    (h : (probe false chk stale blk n r).2 = .nil) : (probe false chk stale blk n r).1 = chk blk :=
+  probe_nil chk stale blk n r hs hconf h
+
+/-- with io.EOF cleared unseen (seeded change C14-4b) a short read answers "absent" with a nil error
+for a key whose block says "present" -/
+example : probe true (fun b => b.all (· != 0)) [0, 0, 0, 0] [1, 1, 1, 1] 2 .eof = (false, .nil) ∧
+    (fun b : List UInt8 => b.all (· != 0)) [1, 1, 1, 1] = true ∧
+    (probe false (fun b => b.all (· != 0)) [0, 0, 0, 0] [1, 1, 1, 1] 2 .eof).2 = .eof := by decide
+
+end Readers
 
 end PqModel.Props.C14
